@@ -149,14 +149,17 @@ theorem C07_geodetic_fixed_point (x y z a e N h Bp B : ℝ)
     geodetic2cart s.2.1 (s.2.2.1 * (180 / Real.pi)) (Complex.arg ⟨x, y⟩ * (180 / Real.pi)) a e = (x, y, z) :=
   conv_geodetic_fixed_point x y z a e N h Bp B hxy hfix hden
 
-/-- Conversely the geodetic latitude of `geodetic2cart h lat lon` is a fixed point of the iteration map,
-and the height computed there is `h` (so fixed points exist: the previous theorem is not vacuous). -/
+/-- Conversely the geodetic latitude of `geodetic2cart h lat lon` is a fixed point of the iteration map, the height
+computed there is `h`, and the point meets the guards `hxy`, `hden` of `C07_geodetic_fixed_point` (so fixed points
+exist and that theorem is not vacuous) — for every height above −a(1−e²) (≈ −6 335 km for WGS84). -/
 theorem C07_geodetic_is_fixed_point (h lat lon a e N0 h0 B0 : ℝ) (ha : 0 < a) (he0 : 0 < e) (he1 : e < 1)
     (hlat : |lat| < 90) (hh : -(a * (1 - e ^ 2)) < h) :
     let p := geodetic2cart h lat lon a e
     let s := cart2geodetic_loop1_body p.1 p.2.1 p.2.2 a e (e ^ 2) (N0, h0, B0, lat * (Real.pi / 180))
-    s.2.1 = h ∧ s.2.2.1 = lat * (Real.pi / 180) ∧ s.2.2.2 = lat * (Real.pi / 180) :=
-  conv_geodetic_is_fixed_point h lat lon a e N0 h0 B0 ha he0 he1 hlat hh
+    (s.2.1 = h ∧ s.2.2.1 = lat * (Real.pi / 180) ∧ s.2.2.2 = lat * (Real.pi / 180))
+    ∧ (p.1 ≠ 0 ∨ p.2.1 ≠ 0) ∧ 1 - e ^ 2 * s.1 / (s.1 + s.2.1) ≠ 0 :=
+  ⟨conv_geodetic_is_fixed_point h lat lon a e N0 h0 B0 ha he0 he1 hlat hh,
+   conv_geodetic_is_fixed_point_den h lat lon a e N0 h0 B0 ha he0 he1 hlat hh⟩
 
 /-- e = 0: `cart2geodetic` takes the closed-form branch (geocentric coordinates, h = r − a) … -/
 theorem C07_spherical_shortcut (x y z a : ℝ) :
@@ -240,13 +243,16 @@ example : ¬ cart2geocentric_rejects 1 2 2 := by
 example : 0 < ellipsoidmodels_WGS84.1 ∧ 0 < ellipsoidmodels_WGS84.2 ∧ ellipsoidmodels_WGS84.2 < 1 := by
   simp only [ellipsoidmodels_WGS84]; norm_num
 
-/-- a fixed point as required by `C07_geodetic_fixed_point` exists (height 1000 m, lat 45°, lon 0 on an ellipsoid
-with a = 6378137, e = 0.08): it is the one `C07_geodetic_is_fixed_point` provides -/
-example : ∃ x y z B : ℝ,
-    (cart2geodetic_loop1_body x y z 6378137 (2 / 25) ((2 / 25) ^ 2) (0, 0, 1, B)).2.2.2 = B := by
+/-- the three hypotheses of `C07_geodetic_fixed_point` hold together (height 1000 m, lat 45°, lon 0 on an ellipsoid
+with a = 6378137, e = 0.08): the point `C07_geodetic_is_fixed_point` provides -/
+example : ∃ x y z B : ℝ, (x ≠ 0 ∨ y ≠ 0)
+    ∧ (cart2geodetic_loop1_body x y z 6378137 (2 / 25) ((2 / 25) ^ 2) (0, 0, 1, B)).2.2.2 = B
+    ∧ 1 - (2 / 25 : ℝ) ^ 2 * (cart2geodetic_loop1_body x y z 6378137 (2 / 25) ((2 / 25) ^ 2) (0, 0, 1, B)).1
+        / ((cart2geodetic_loop1_body x y z 6378137 (2 / 25) ((2 / 25) ^ 2) (0, 0, 1, B)).1
+           + (cart2geodetic_loop1_body x y z 6378137 (2 / 25) ((2 / 25) ^ 2) (0, 0, 1, B)).2.1) ≠ 0 := by
   have h := C07_geodetic_is_fixed_point 1000 45 0 6378137 (2 / 25) 0 0 1 (by norm_num) (by norm_num) (by norm_num)
     (by norm_num [abs_lt]) (by norm_num)
-  exact ⟨_, _, _, _, h.2.2⟩
+  exact ⟨_, _, _, _, h.2.1, h.1.2.2, h.2.2⟩
 
 /-- a loop that exits: count to three -/
 example : ∃ n : ℕ, ¬ (fun k : ℕ => k < 3) ((fun k => k + 1)^[n] 0) := ⟨3, by simp [Function.iterate_succ]⟩
